@@ -1,9 +1,9 @@
 // C20 — RGSW external products and blind rotations compute the encrypted look-up.
 //
-// Files: rgswref.go (reference decryption of gadget rows, worst-case noise bound), extprod.go (external
-// product over chain shapes × decompositions × levels × messages), rgswalg.go (RGSW add / (X^a−1) multiply,
-// plaintext-side encodings, NoiseRGSWCiphertext), blindrot.go + brkeys.go (blind rotation over every grid
-// point, recording key set).
+// Files: rgswref.go (reference decryption of gadget rows, worst-case noise bound, harness-side RGSW builder),
+// extprod.go (external product over chain shapes × decompositions × levels × messages), rgswalg.go (RGSW
+// encryption rows, NoiseRGSWCiphertext, RGSW add / (X^a−1) multiply), blindrot.go + brkeys.go (blind rotation
+// over every grid point, slot subsets, recording key set, key generation).
 package main
 
 import (
@@ -14,9 +14,20 @@ import (
 
 func scenarios(tier string) []engine.Scenario {
 	var scs []engine.Scenario
-	scs = append(scs, extProdScenarios(tier)...)
-	scs = append(scs, rgswAlgScenarios(tier)...)
-	scs = append(scs, brScenarios(tier)...)
+	// interleave the families so that the round-robin distribution gives every worker a similar mix
+	fam := [][]engine.Scenario{brScenarios(tier), extProdScenarios(tier), rgswAlgScenarios(tier)}
+	for i := 0; ; i++ {
+		any := false
+		for _, f := range fam {
+			if i < len(f) {
+				scs = append(scs, f[i])
+				any = true
+			}
+		}
+		if !any {
+			break
+		}
+	}
 	return scs
 }
 
@@ -24,15 +35,45 @@ func main() {
 	engine.Main(engine.Check{
 		ID:    "C20",
 		Level: "exploration",
-		Rule:  "TODO",
+		Rule: "extprod/: one scenario per (Q-chain shape, #P, levelQ, levelP, base-two decomposition, NTT flag), one leaf per class of RGSW plaintext g " +
+			"(0, 1, −1, every X^a, every X^a−1, ternary); a leaf multiplies every RLWE message (0, every X^i, every ⌊Q/4⌋X^i, ramp) by every g of the class, out of place and in place, " +
+			"and compares the independently computed phase with phase(in)·g under a worst-case noise bound derived from the decomposition. " +
+			"rgswenc/ and rgswalg/: every row of RGSW ciphertexts (fresh, summed, multiplied by X^a−1 for all 2N exponents) is decrypted against the gadget definition; NoiseRGSWCiphertext is compared with that decryption. " +
+			"blindrot/: one scenario per (LWE ring, BR ring, key/path variant, Hamming weight, interval, slot pattern); full-slot patterns walk the whole 2N-point circle three times so that every grid point meets sign, identity and a fixed table; " +
+			"the subsets pattern requests every subset of size ≤ 2 of four slot indices. Each rotation is judged on the constant coefficient (property), on being a rotation of the look-up (mechanism) and on the exponent prescribed by the documented modulus switch. " +
+			"distinct_nontrivial counts (path, plaintext class, noise magnitude) resp. (variant, function, inside/outside, exact-hit) classes.",
 		Assumptions: []string{
-			"TODO",
+			"RLWE ciphertext, RGSW ciphertext and output are at the same level; RGSW plaintexts are small (ternary or X^a−1); P primes are at least as large as Q primes",
+			"noise bounds use the truncation bound of the declared error distribution (rows of fresh keys) and the digit ranges of the decomposition; configurations whose worst-case bound exceeds Q/4 (resp. scale/8 for blind rotations) are counted as out of scope, not judged",
+			"where the library's own RGSW encryption is malformed (no auxiliary modulus: finding C20/rgsw/Encrypt/row-noise/levelP=-1) evaluators are judged on textbook RGSW ciphertexts built by the harness; the malformed encryption is judged in rgswenc/ and brkeys/",
+			"coefficient-domain RLWE inputs: the documentation is silent on the domain of the result, both readings are accepted",
+			"blind rotation: inputs x are encoded as k·Q_LWE/2N_BR for grid index k (|k| ≤ N_BR/2 ↔ [a,b]); at the upper end point b both f(b) and the negacyclic value −f(a) are accepted; " +
+				"the drift window is 1/2 + 3h/2 grid steps (rounding of b, rounding and odd-forcing of the h mask coefficients that meet a non-zero secret coefficient) plus one discretisation step",
+			"the algorithm's window is w=10: the expected Galois key set is {5^1..5^10, −5}",
 		},
 		Scenarios:      scenarios,
 		QuickBudget:    150 * time.Second,
 		ThoroughBudget: 25 * time.Minute,
 		Expect: func(tier string) []string {
-			return []string{"path=32bit", "path=noP", "path=singleP", "path=multipleP"}
+			e := []string{
+				"path=32bit", "path=noP", "path=singleP", "path=multipleP",
+				"g=zero", "g=one", "g=minus-one", "g=monomial", "g=monomial-minus-one", "g=ternary",
+				"shape=q28lo", "shape=q28hi", "shape=q56lo", "shape=q56hi", "shape=q3mix", "shape=q29lo",
+				"pw2=0", "pw2=7", "pw2=16", "nP=0", "nP=1", "nP=2", "ntt=true", "ntt=false",
+				"rgsw-source=library",
+				"rgswenc=levelP=-1", "rgswenc=levelP>=0",
+				"pt-encoding=coeff", "pt-encoding=ntt", "pt-encoding=ntt+mont", "pt-encoding=coeff+mont", "pt-encoding=nil",
+				"rgswalg=AddLazy(ct)", "rgswalg=AddLazy(pt)", "rgswalg=MulByXPowAlphaMinusOneLazy", "rgswalg=MulByXPowAlphaMinusOneThenAddLazy",
+				"br-variant=singleP", "br-variant=32bit", "br-variant=noP", "br-variant=multipleP",
+				"br-pair=16,32", "br-pair=16,64", "br-pair=32,128",
+				"br-h=1", "br-h=2", "br-h=N/4", "br-h=N/2",
+				"br-interval=[-1,1]", "br-interval=[-4,4]",
+				"br-slots=full", "br-slots=subs",
+				"br-rotation=uniquely-identified",
+				"x=inside", "x=outside", "x=a", "x=b", "x=0",
+				"brkeys=singleP", "brkeys=32bit", "brkeys=noP", "brkeys=multipleP",
+			}
+			return e
 		},
 	})
 }
